@@ -88,6 +88,10 @@ def check_pair(case, rec):
             env.apply(cols=o["cols"], rows=o["rows"])
             m.term = (o["cols"], o["rows"])
             continue
+        if k == "decoy":
+            for L in (A, B):
+                L.decoy()
+            continue
         if k == "tell":
             continue
         before = m.settings_key()
